@@ -319,6 +319,7 @@ fn sanitize(a: &mut ANode, reg: &Reg) {
 }
 
 const TABLE_DOCS: usize = 30;
+const ISLAND_DOCS: usize = 2 * 4 * 4 * 2 * 2 * 2;
 
 /// every string literal of the name arrays in src/output/html5elements.rs (lower-case ASCII names)
 fn table_names() -> Vec<String> {
@@ -389,6 +390,37 @@ fn main() {
                 let mut t = ANode::Doc(vec![ANode::Elem { name: div, ns: vec![], attrs: vec![], kids }]);
                 declare_missing(&mut r, &mut t, &reg, pool, 100);
                 (format!("c{}", k), t, vec![Q { node: 0, cdata: vec![], suppress: vec![], indent: false }, Q { node: 0, cdata: vec![], suppress: vec![], indent: true }])
+            }
+            None if k < table_stream_len() + ISLAND_DOCS => {
+                // island stream (exhaustive): <div> declaring prefixes for SVG, MathML and a foreign namespace, with two foreign
+                // islands one after the other.  The first is <s:svg> or <m:math> with no declaration of its own / its own
+                // namespace as default / another namespace as default / its own prefix again, and no child / a child of its own
+                // namespace / a child in the foreign namespace / an HTML child; the second is <s:svg> or <m:math> with nothing
+                // or its own default declaration, empty or with a child of its own.  Every island must come out unprefixed under
+                // a default declaration of its namespace, whatever the island before it declared.
+                let mut j = k - table_stream_len();
+                let mut take = |m: usize| -> usize { let v = j % m; j /= m; v };
+                let (svg, math, foreign) = (pool.uris[4], pool.uris[3], pool.uris[5]);
+                let (ps, pm, pf) = (pool.prefixes[2], pool.prefixes[3], pool.prefixes[4]);
+                let nm = |xot: &mut Xot, reg: &mut Reg, l: &str, u: usize| reg.name(xot, l, u);
+                let island = |xot: &mut Xot, reg: &mut Reg, is_svg: bool, decl: usize, child: usize| -> ANode {
+                    let (u, p, top, inner) = if is_svg { (svg, ps, "svg", "circle") } else { (math, pm, "math", "mi") };
+                    let ns = match decl { 0 => vec![], 1 => vec![(0, u)], 2 => vec![(0, foreign)], _ => vec![(p, u)] };
+                    let kids = match child {
+                        0 => vec![],
+                        1 => vec![ANode::Elem { name: nm(xot, reg, inner, u), ns: vec![], attrs: vec![], kids: vec![] }],
+                        2 => vec![ANode::Elem { name: nm(xot, reg, "foo", foreign), ns: vec![], attrs: vec![], kids: vec![ANode::Text("t".into())] }],
+                        _ => vec![ANode::Elem { name: nm(xot, reg, "p", 0), ns: vec![], attrs: vec![], kids: vec![ANode::Text("t".into())] }],
+                    };
+                    ANode::Elem { name: nm(xot, reg, top, u), ns, attrs: vec![], kids }
+                };
+                let (k1, d1, c1) = (take(2) == 1, take(4), take(4));
+                let (k2, d2, c2) = (take(2) == 1, take(2), take(2));
+                let first = island(&mut xot, &mut reg, k1, d1, c1);
+                let second = island(&mut xot, &mut reg, k2, d2, c2);
+                let div = reg.name(&mut xot, "div", 0);
+                let t = ANode::Doc(vec![ANode::Elem { name: div, ns: vec![(ps, svg), (pm, math), (pf, foreign)], attrs: vec![], kids: vec![first, ANode::Text("x".into()), second] }]);
+                (format!("c{}", k), t, vec![Q { node: 0, cdata: vec![], suppress: vec![], indent: false }, Q { node: 1, cdata: vec![], suppress: vec![], indent: false }])
             }
             None => {
                 let cfg = GenCfg { max_nodes: 22, max_depth: 5, doc_root: 55, fragment: 45, adjacent_text: false, empty_text: false, ..GenCfg::default() };
